@@ -19,7 +19,7 @@ fn opt(o: Option<&String>) -> Value {
 }
 // the registry read through ACCESSORS only
 fn g_field(f: &Field<PortableForm>) -> Value {
-    json!({"name": opt(f.name()), "ty": proj::num(M, f.ty().id), "tn": opt(f.type_name()), "docs": sts(f.docs())})
+    json!({"name": opt(f.name()), "ty": proj::num(M, f.ty().id()), "tn": opt(f.type_name()), "docs": sts(f.docs())})
 }
 fn g_fields(fs: &[Field<PortableForm>]) -> Value {
     Value::Array(fs.iter().map(g_field).collect())
@@ -28,18 +28,18 @@ fn g_variant(v: &Variant<PortableForm>) -> Value {
     json!({"name": proj::st(M, v.name()), "fields": g_fields(v.fields()), "index": v.index(), "docs": sts(v.docs())})
 }
 fn g_param(p: &TypeParameter<PortableForm>) -> Value {
-    json!({"name": proj::st(M, p.name()), "ty": match p.ty() { Some(t) => json!([proj::num(M, t.id)]), None => json!([]) }})
+    json!({"name": proj::st(M, p.name()), "ty": match p.ty() { Some(t) => json!([proj::num(M, t.id())]), None => json!([]) }})
 }
 fn g_def(d: &TypeDef<PortableForm>) -> Value {
     match d {
         TypeDef::Composite(c) => json!({"tag": "composite", "fields": g_fields(c.fields())}),
         TypeDef::Variant(v) => json!({"tag": "variant", "variants": v.variants().iter().map(g_variant).collect::<Vec<_>>()}),
-        TypeDef::Sequence(s) => json!({"tag": "sequence", "ty": proj::num(M, s.type_param().id)}),
-        TypeDef::Array(a) => json!({"tag": "array", "len": proj::num(M, a.len()), "ty": proj::num(M, a.type_param().id)}),
-        TypeDef::Tuple(t) => json!({"tag": "tuple", "tys": t.fields().iter().map(|x| proj::num(M, x.id)).collect::<Vec<_>>()}),
+        TypeDef::Sequence(s) => json!({"tag": "sequence", "ty": proj::num(M, s.type_param().id())}),
+        TypeDef::Array(a) => json!({"tag": "array", "len": proj::num(M, a.len()), "ty": proj::num(M, a.type_param().id())}),
+        TypeDef::Tuple(t) => json!({"tag": "tuple", "tys": t.fields().iter().map(|x| proj::num(M, x.id())).collect::<Vec<_>>()}),
         TypeDef::Primitive(p) => json!({"tag": "primitive", "prim": proj::prim_name(p)}),
-        TypeDef::Compact(c) => json!({"tag": "compact", "ty": proj::num(M, c.type_param().id)}),
-        TypeDef::BitSequence(b) => json!({"tag": "bitsequence", "store": proj::num(M, b.bit_store_type().id), "order": proj::num(M, b.bit_order_type().id)}),
+        TypeDef::Compact(c) => json!({"tag": "compact", "ty": proj::num(M, c.type_param().id())}),
+        TypeDef::BitSequence(b) => json!({"tag": "bitsequence", "store": proj::num(M, b.bit_store_type().id()), "order": proj::num(M, b.bit_order_type().id())}),
     }
 }
 fn g_body(t: &Type<PortableForm>) -> Value {
@@ -70,6 +70,18 @@ fn from_def(d: &TypeDef<PortableForm>) -> Type<PortableForm> {
         TypeDef::BitSequence(x) => x.into(),
     }
 }
+// constructors and defaults no listed property reads: the unit tuple, the default registry, Field::builder, Debug of a MetaType
+fn misc() -> Value {
+    use scale_info::{meta_type, IntoPortable, MetaType, Registry, TypeDefTuple};
+    let mut r = Registry::default();
+    let unit = TypeDefTuple::unit().into_portable(&mut r);
+    let after_unit = PortableRegistry::from(r).types.len();
+    let via_builder = Field::<scale_info::form::MetaForm>::builder().name("n").ty::<u8>().type_name("u8").finalize();
+    let direct = Field::new(Some("n"), meta_type::<u8>(), Some("u8"), vec![]);
+    json!({"unit": g_def(&TypeDef::Tuple(unit)), "default_len": PortableRegistry::from(Registry::default()).types.len(), "after_unit": after_unit,
+           "field_builder": via_builder == direct,
+           "meta_debug": format!("{:?}", MetaType::new::<Vec<u8>>()) == format!("{:?}", std::any::TypeId::of::<[u8]>())})
+}
 fn main() {
     let a: Vec<String> = std::env::args().collect();
     assert_eq!(a[1], "record");
@@ -82,7 +94,7 @@ fn main() {
         let reg = proj::un_registry(&rv);
         let probes: Vec<Value> = (0..k + 2).map(|i| json!({"i": i, "got": match reg.resolve(i as u32) { Some(t) => json!([proj::body(M, t)]), None => json!([]) }})).collect();
         let fromdef: Vec<Value> = reg.types.iter().map(|pt| json!({"def": proj::def(M, &pt.ty.type_def), "ty": proj::body(M, &from_def(&pt.ty.type_def))})).collect();
-        out.put(&json!({"ev": "Surface", "reg": proj::registry(M, &reg), "get": g_registry(&reg),
+        out.put(&json!({"ev": "Surface", "src": rv, "misc": misc(), "reg": proj::registry(M, &reg), "get": g_registry(&reg),
             "paths": reg.types.iter().map(|pt| path_ev(&pt.ty.path)).collect::<Vec<_>>(), "probes": probes, "fromdef": fromdef}));
     }
     out.flush();
